@@ -1310,6 +1310,43 @@ def rule_r17(prog, res):
                 if bad else 'their types are referenced but not defined'))
 
 
+def rule_r18(prog, res):
+    res.rule('R18', 'two Array customisations that share a type name are '
+             'taken for one type only when their item elements have the same '
+             'name (one complexType is published for the key)')
+    itf = prog.cls('spyne.interface._base:Interface')
+    h = itf.methods.get('has_class')
+    if h is None:
+        raise AnalysisError('Interface.has_class', 'not found')
+    same = [b for b in walk_no_defs(h.node) if isinstance(b, ast.If) and
+            unparse(b.test) == 'o1 is o2' and any(
+                isinstance(r, ast.Return) for r in b.body)]
+    res.floor('R18', 'same-original waivers in has_class', len(same), 1)
+    for b in same:
+        blk = b._parent.body if b in getattr(b._parent, 'body', []) else []
+        before = blk[:blk.index(b)] if b in blk else []
+        cmp_ = [st for st in before if isinstance(st, ast.If) and
+                '_type_info' in unparse(st.test) and any(
+                    isinstance(r, ast.Raise) for r in ast.walk(st))]
+        inner = [c for c in ast.walk(b.test)] and [
+            st for st in b.body if isinstance(st, ast.If) and
+            '_type_info' in unparse(st.test)]
+        ok = bool(cmp_) or bool(inner)
+        where = '%s:%d' % (h.module.relpath, b.lineno)
+        res.ob('R18', where, 'has_class compares the item names of two '
+               'arrays before it takes them for one type: %s' % ok,
+               'ok' if ok else 'VIOLATED')
+        if not ok:
+            res.finding('R18', 'Interface.has_class|array-item-name-not-'
+                        'compared', where, 'every pair of Array(...) '
+                        'customisations has __orig__ Array, so Array(Unicode) '
+                        'and Array(Unicode, member_name="tag") are one type '
+                        'for the interface: one stringArray is published and '
+                        'the replies of the other method do not validate '
+                        'against it / cannot be decoded by a generated '
+                        'client')
+
+
 def run(prog, res, tier):
     res.run_rule(rule_r1, prog, res, tier)
     res.run_rule(rule_r2, prog, res)
@@ -1328,6 +1365,7 @@ def run(prog, res, tier):
     res.run_rule(rule_r15, prog, res)
     res.run_rule(rule_r16, prog, res)
     res.run_rule(rule_r17, prog, res)
+    res.run_rule(rule_r18, prog, res)
 
 
 _S = 'spyne/interface/xml_schema/_base.py'
@@ -1336,6 +1374,11 @@ _I = 'spyne/interface/_base.py'
 _T = 'spyne/util/toposort.py'
 
 MUTANTS = [
+    Mutant('array-item-name-check-removed', 'R18', 'fire', _I,
+           in_func('Interface.has_class',
+                   r"            if o1 in \(Array, Iterable\) and o2 in "
+                   r"\(Array, Iterable\) \\\n(.*?)\(cls, c, key\)\)\n\n",
+                   "", regex=True), 'array-item-name-not-compared'),
     Mutant('private-parent-fields-as-records', 'R16', 'fire',
            'spyne/interface/xml_schema/model.py',
            in_func('complex_add',
